@@ -24,6 +24,35 @@ P = "C06"
 COLS = [1, 4, 9, 16, 25]
 ROWS = [1, 3, 6, 10]
 TEXTS = ["", "a", "hello world", "one two three four five six seven", "line1\nline2", "wide 日本語 text", "x" * 40, "tab\there"]
+class OldStyleWalker(list):
+    """A list walker as applications wrote them before ListWalker existed: get_focus / set_focus / get_next / get_prev on
+    a plain class, positions are indices, no 'modified' signal."""
+
+    focus = 0
+
+    def _get(self, pos):
+        return (self[pos], pos) if isinstance(pos, int) and 0 <= pos < len(self) else (None, None)
+
+    def get_focus(self):
+        if not self:
+            return None, None
+        self.focus = max(0, min(self.focus, len(self) - 1))
+        return self._get(self.focus)
+
+    def set_focus(self, position):
+        if not isinstance(position, int) or not 0 <= position < len(self):
+            e = IndexError(f"No widget at position {position}")
+            e.verif_application_side = True
+            raise e
+        self.focus = position
+
+    def get_next(self, position):
+        return self._get(position + 1) if isinstance(position, int) else (None, None)
+
+    def get_prev(self, position):
+        return self._get(position - 1) if isinstance(position, int) else (None, None)
+
+
 VALIGN_REQUESTS = ["top", "middle", "bottom", ["relative", 30], ["relative", 100]]
 KEYS = ["up", "down", "left", "right", "a", " ", "enter", "tab", "page down", "page up", "home", "end", "backspace", "delete", "Z"]
 FLOW_LEAVES = ("Text", "Edit", "Button", "CheckBox", "Divider", "ProgressBar", "RadioButton", "SelectableIcon")
@@ -459,6 +488,20 @@ class _Run:
             va = VALIGN_REQUESTS[(op.get("va") if op.get("va") is not None else op.get("t", 0)) % len(VALIGN_REQUESTS)]
             w.set_focus_valign(tuple(va) if isinstance(va, list) else va)
             return "focus_valign"
+        if t == "ListBox" and op.get("sf") is None and op.get("va") is None and m == 6 and n.kids and not isinstance(n.aux, OldStyleWalker):
+            # the application replaces the body by a walker of the old kind: the four protocol methods on a class that
+            # does not derive from ListWalker and has no 'modified' signal (the ListBox then stops caching its own canvases;
+            # what its ancestors had cached of the old body must go all the same)
+            try:
+                fpos = w.focus_position
+            except IndexError:
+                fpos = 0
+            n.kids.reverse()  # (the new body lists the items the other way round: the replacement is visible at once)
+            ow = OldStyleWalker([k.w for k in n.kids])
+            ow.focus = fpos if isinstance(fpos, int) and 0 <= fpos < len(ow) else 0
+            w.body = ow
+            n.aux = ow
+            return "old_style_body"
         if t == "ListBox" and op.get("sf") is not None:
             # the application scrolls the list itself (ListBox.shift_focus, a documented method)
             w.shift_focus((COLS[op.get("c", 3) % len(COLS)], ROWS[op.get("r", 2) % len(ROWS)]), int(op["sf"]))
